@@ -24,6 +24,9 @@ func runC11(c *Check) {
 	if r == nil {
 		return
 	}
+	// what is persisted and fanned out are Publish's own copies; the fan-out iterates over a stable copy of the subscriber list
+	c04PublishCopies(c, P, r)
+	c04LookupCopy(c, P+".O3", r)
 	R := r.Replay
 	res := r.LA.Result(R)
 	// O1: entry lockset of the replay literal (hand-off)
